@@ -5,12 +5,89 @@ FAMILIES = ['plain', 'timeout', 'kill', 'resize']
 PER_FAMILY = (300, 6000)
 
 
-PROOF = dict(prop_file='Props/C03.v', theorems=['C03_at_most_once', 'C03_cancelled_never_executed', 'C03_cancel_is_final', 'C03_result_from_own_execution', 'C03_token_unique'], tf_families=['plain', 'timeout', 'kill', 'resize'], tf_per_family=(100, 1500),
-             note='map() chunking (C03_map) is not yet in the model; value payloads are abstracted to the work id that produced them')
+PROOF = dict(prop_file='Props/C03.v', gen=['MapPath'], theorems=['C03_at_most_once', 'C03_cancelled_never_executed', 'C03_cancel_is_final', 'C03_result_from_own_execution', 'C03_token_unique', 'C03_map', 'C03_map_structure'], tf_families=['plain', 'timeout', 'kill', 'resize'], tf_per_family=(100, 1500),
+             note='value payloads are abstracted to the work id that produced them; map(): that Executor.map yields chunk results in submission order is CPython\'s')
+
+
+MAP_REAL = r'''
+import json
+def f(a, b):
+    return (a * 10 + b, a - b)
+if __name__ == "__main__":
+    from loky import ProcessPoolExecutor
+    out = []
+    with ProcessPoolExecutor(3) as e:
+        for n, la, lb in ((1, 7, 7), (3, 10, 8), (4, 4, 9), (20, 5, 5), (2, 0, 3)):
+            xs, ys = list(range(la)), list(range(100, 100 + lb))
+            out.append([n, la, lb, [list(t) for t in e.map(f, xs, ys, chunksize=n)] == [list(t) for t in map(f, xs, ys)]])
+        try:
+            list(e.map(f, [1], [2], chunksize=0)); out.append(["chunksize0", "accepted"])
+        except ValueError:
+            out.append(["chunksize0", "ValueError"])
+    print(json.dumps(out))
+'''
+
+
+def map_differential(ctx):
+    """the real chunking functions against the builtin map and against the generated instance evaluated inside Coq"""
+    import os
+    import random
+    import re
+    import sys
+    from functools import partial
+    import vlib
+    sys.path.insert(0, os.path.join(vlib.VERIF, "corr", "real"))
+    import runner
+    if sys.path[0] != vlib.REPO:
+        sys.path.insert(0, vlib.REPO)
+    import loky.process_executor as pe
+    rng = random.Random(ctx.seed + 3)
+    n_cases = 400 if ctx.tier == "quick" else 4000
+    bad = []
+    coq_cases = []
+    for i in range(n_cases):
+        k = rng.choice([1, 1, 2, 3])
+        its = [[rng.randrange(50) for _ in range(rng.choice([0, 1, 2, 3, 5, 8, 13, 21, 40]))] for _ in range(k)]
+        n = rng.choice([1, 1, 2, 3, 4, 7, 12, 50])
+        fn = lambda *a: tuple(a)  # noqa: E731
+        chunks = list(pe._get_chunks(n, *its))
+        got = list(pe._chain_from_iterable_of_lists(map(partial(pe._process_chunk, fn), chunks)))
+        want = list(map(fn, *its))
+        if got != want:
+            bad.append({"chunksize": n, "iterables": its, "got": got[:20], "want": want[:20]})
+        elif any(not (0 < len(c) <= n) for c in chunks):
+            bad.append({"chunksize": n, "iterables": its, "chunk_sizes": [len(c) for c in chunks]})
+        if k == 1 and len(coq_cases) < 150:
+            coq_cases.append((n, its[0], [x[0] for x in got]))
+    model_ok = None
+    if os.path.exists(os.path.join(vlib.COQ, "Gen", "MapPath.vo")):
+        txt = ("From Coq Require Import List Arith Bool.\nFrom LokyV Require Import Lib.MapLib Gen.MapPath.\nImport ListNotations.\n"
+               "Definition run (c : nat * list nat) := match pool_map chunksize_guard chunk_slice_size chain_element_ops (fun x : nat => x) (fst c) (snd c) "
+               "with Some r => r | None => [999] end.\nEval vm_compute in map run [\n  "
+               + ";\n  ".join("(%d, [%s])" % (n, "; ".join(map(str, l))) for n, l, _ in coq_cases) + "].\n")
+        ok, res = vlib.coq_eval(f"c03_map_{os.getpid()}", txt)
+        if ok:
+            flat = res[res.index("="):res.rindex(":")].replace("\n", " ")
+            inner = flat[flat.index("[") + 1:flat.rindex("]")]
+            rows = re.findall(r"\[([0-9; ]*)\]", inner)
+            rows = [[int(x) for x in r.split(";")] if r.strip() else [] for r in rows]
+            model_ok = len(rows) == len(coq_cases) and all(r == g for r, (_, _, g) in zip(rows, coq_cases))
+            if not model_ok:
+                j = next((j for j, (r, c) in enumerate(zip(rows, coq_cases)) if r != c[2]), 0)
+                bad.append({"model_vs_real": {"case": coq_cases[j][:2], "real": coq_cases[j][2], "model": rows[j] if j < len(rows) else None}})
+    res = runner.run_script(MAP_REAL, vlib.REPO, timeout=120)
+    real = runner.last_json(res)
+    if real is None or any(r[-1] is not True for r in real[:-1]) or real[-1] != ["chunksize0", "ValueError"]:
+        bad.append({"real_executor_map": real, "stderr": res["stderr"][-300:]})
+    if bad:
+        rp = vlib.write_replay(ctx, "map", {"kind": "map() differs from the builtin map", "cases": bad[:5], "failing": len(bad)})
+        ctx.violations.append((f"map(): {len(bad)} cases differ from the builtin map: {str(bad[0])[:140]}", rp, False))
+    return {"map_cases": n_cases, "map_model_cases": len(coq_cases), "map_model_agrees": model_ok, "map_real_executor": real}
 
 
 def run(ctx):
-    return S.sim_check(ctx, FAMILIES, FAMILIES, PER_FAMILY, S.SIM_ASSUME, proof=PROOF)
+    extra = map_differential(ctx)
+    return S.sim_check(ctx, FAMILIES, FAMILIES, PER_FAMILY, S.SIM_ASSUME, proof=PROOF, extra_cov=extra)
 
 
 def replay(ctx, path):
